@@ -162,3 +162,17 @@ def block_download_in_chunks(stream, data):
         n = stream.write(data[pos:pos + k])
         pos = pos + n
     stream.close()
+
+
+def open_and_upload_all(client, index, subindex):
+    """open a raw upload stream on the client and read it to the end (what SdoClient.open(..., 'rb', buffering=0)
+    followed by readall() does)"""
+    from canopen.sdo.client import ReadableStream
+    stream = ReadableStream(client, index, subindex)
+    return upload_all(stream)
+
+
+def write_once_and_close(stream, data):
+    """a caller that hands the whole payload to write() at once"""
+    stream.write(data)
+    stream.close()
